@@ -77,3 +77,11 @@ Definition srcdoc_of (repr : text) : option text :=
   if starts_with srcdoc_open repr
   then Some (unescape_html (until_sub [34] (skipn (length srcdoc_open) repr)))
   else None.
+
+(* the elements the documents put the generated texts into *)
+Definition div_open : text := Eval vm_compute in T "<div class=""mermaid"">".
+Definition div_close : text := Eval vm_compute in T "</div".
+Definition script_open : text := Eval vm_compute in T "<script>".
+Definition script_close : text := Eval vm_compute in T "</script".
+
+Definition ends_with (suffix s : text) : bool := starts_with (rev suffix) (rev s).
